@@ -359,10 +359,10 @@ def r02c(model, ctx):
     gd = CFG(fd, inline_closures=False)
     app = gd.nodes_with(lambda n: isinstance(n, ast.Call) and unparse(n.func) == "driver.assignments.append")
     ev = gd.nodes_with(lambda n: isinstance(n, ast.Call) and unparse(n.func) == "driver.emit_value")
-    need(len(app) == 1 and len(ev) == 1, "emit_drivers: reset append / emit_value sites not unique")
+    need(len(app) >= 1 and len(ev) == 1, "emit_drivers: reset append / emit_value sites not found")
     inner = [nid for nid in gd.nodes() if isinstance(gd.stmt[nid], ast.For) and unparse(gd.stmt[nid].iter) == "sig_drivers.values()"]
     need(len(inner) == 1, "emit_drivers: per-driver loop not found")
-    ok = ev[0] in gd.after(app[0], blocked={inner[0]}) and app[0] not in gd.after(ev[0], blocked={inner[0]})
+    ok = all(ev[0] in gd.after(a, blocked={inner[0]}) and a not in gd.after(ev[0], blocked={inner[0]}) for a in app)
     ctx.check(ok, R, "emit_drivers:reset-before-emit_value",
               "the reset Assignment is appended before driver.emit_value() within one driver iteration",
               "the sync reset assignment must be appended to driver.assignments before emit_value() consumes them",
